@@ -146,6 +146,17 @@ template <class L1, class L2, class L3> void static_ops() {
     a.set(distinct_vals<MPixel16<L1>>(10)); b.set(distinct_vals<MPixel16<L2>>(100)); c.set(distinct_vals<MPixel16<L3>>(1000));
     { std::vector<long long> vis; gil::static_for_each(a.p, [&](uint16_t& x) { vis.push_back(x); });
       J("Static").str("op", "for_each1").str("models", models).arr("map1", m1).arr("p1", a.get()).arr("visits", vis).emit(); }
+    // a functor that keeps its state BY VALUE: static_for_each returns it after the visits (as std::for_each does), for every
+    // const / mutable combination of 1, 2 and 3 colour bases
+    { struct Cnt { int n = 0; long sum = 0; void operator()(uint16_t const& x) { ++n; sum += x; } void operator()(uint16_t const& x, uint16_t const& y) { ++n; sum += x + y; }
+                   void operator()(uint16_t const& x, uint16_t const& y, uint16_t const& z) { ++n; sum += x + y + z; } };
+      P1 const& ca = a.p; P2 const& cb = b.p; P3 const& cc = c.p; std::vector<long> counts, sums;
+      auto rec = [&](Cnt r) { counts.push_back(r.n); sums.push_back(r.sum); };
+      rec(gil::static_for_each(a.p, Cnt())); rec(gil::static_for_each(ca, Cnt()));
+      rec(gil::static_for_each(a.p, b.p, Cnt())); rec(gil::static_for_each(ca, b.p, Cnt())); rec(gil::static_for_each(a.p, cb, Cnt())); rec(gil::static_for_each(ca, cb, Cnt()));
+      rec(gil::static_for_each(a.p, b.p, c.p, Cnt())); rec(gil::static_for_each(ca, b.p, c.p, Cnt())); rec(gil::static_for_each(a.p, cb, c.p, Cnt())); rec(gil::static_for_each(a.p, b.p, cc, Cnt()));
+      rec(gil::static_for_each(ca, cb, c.p, Cnt())); rec(gil::static_for_each(ca, b.p, cc, Cnt())); rec(gil::static_for_each(a.p, cb, cc, Cnt())); rec(gil::static_for_each(ca, cb, cc, Cnt()));
+      J("Static").str("op", "for_each_ret").str("models", models).arr("map1", m1).arr("p1", a.get()).arr("p2", b.get()).arr("p3", c.get()).arr("counts", counts).arr("sums", sums).emit(); }
     { std::vector<std::string> vis; gil::static_for_each(a.p, b.p, [&](uint16_t& x, uint16_t& y) { vis.push_back("[" + std::to_string(x) + "," + std::to_string(y) + "]"); });
       J("Static").str("op", "for_each2").str("models", models).arr("map1", m1).arr("map2", m2).arr("p1", a.get()).arr("p2", b.get()).raw("visits", vt::jarr_raw(vis)).emit(); }
     { MPixel16<L2> o; o.set(distinct_vals<MPixel16<L2>>(0)); gil::static_transform(a.p, o.p, [](uint16_t x) { return uint16_t(x + 1); });
